@@ -109,6 +109,7 @@ type clusterScn struct {
 	down    [2]atomic.Bool // server is deliberately down (observer / writers do not count errors)
 	ackOff   atomic.Int32  // 1 while the monitor has replication acknowledgement switched off (or is switching)
 	probeSeq int
+	warnNotes atomic.Int32
 }
 
 func (s *clusterScn) viol(key, what string, witness map[string]any) {
@@ -162,7 +163,7 @@ func runClusterScenario(c *rig.Ctx, t *tally, idx int) {
 	rnd.Shuffle(len(kinds), func(i, j int) { kinds[i], kinds[j] = kinds[j], kinds[i] })
 	gaps := make([]int, len(kinds))
 	for i := range gaps {
-		gaps[i] = 1500 + rnd.Intn(3000)
+		gaps[i] = 2500 + rnd.Intn(3000)
 	}
 	c.Case(fmt.Sprintf("c45/%s", s.name), map[string]any{"branches": s.branches, "ack_secs": s.ackSecs, "epoch": s.epoch,
 		"writers": nWriters, "schedule": kinds, "gaps_ms": gaps})
@@ -441,6 +442,14 @@ func (s *clusterScn) writer(w int, rnd *rand.Rand) {
 		}
 		if len(warn) > 0 {
 			s.t.inc("c45.cluster.tx_ok_with_replication_warning")
+			if s.down[1-cur].Load() {
+				s.t.inc("c45.cluster.tx_ok_with_replication_warning_while_standby_down")
+			}
+			if s.warnNotes.Add(1) == 1 {
+				s.c.Note(s.name + ": first replication warning: " + short(strings.Join(warn, " ; "), 300))
+			}
+		} else if werr == nil && ackOn {
+			s.t.inc("c45.cluster.tx_ok_acknowledged")
 		}
 		if werr != nil {
 			x.Close()
